@@ -48,6 +48,10 @@ EXTRA_SEEDS = [
     # a labelled field that several variants share (one access, several declarations), next to fields only one variant has
     'pub type Pet { Dog(name: String, age: Int) Cat(name: String, lives: Int) Fish(name: String) }\nfn n(p: Pet) { p.name }\n'
     'fn mk() { Dog(name: "x", age: 1).name }\nfn m(p) { case p { Cat(name: n, ..) -> n Dog(age: a, ..) -> a _ -> "" } }\n',
+    # nesting deeper than any limit the parser may have (closed, and cut off in the truncations)
+    'fn deep() { [[[[[[[[[[[[[[[[[[[[[[[[[[[[[[[[[[[[[[[[[[[[[[[[[[[[[[[[[[[[[[[[[[[[[[[[[[[[[[[[[[[[[[[[[[[[[[[[[[[[[[[[[[[[[[[[[[[[[[[[[[[[[[[[[[[[[[[[[[[[[[[[[[[[[[[[[[[[[[[[[[[[[[[[[[[[[[[[[[[[[[[[[[[[[[[[[[[[[[[[[[[[[[[[[[[[[[[[[[[[[[[[[[[[[[[[[[[[[[[[[[[[[[[[[[[[[[[[[[[[[[[[[[[[[[[[[[[[[[[[[[[[[[[[[[[[[[[[[[[[1]]]]]]]]]]]]]]]]]]]]]]]]]]]]]]]]]]]]]]]]]]]]]]]]]]]]]]]]]]]]]]]]]]]]]]]]]]]]]]]]]]]]]]]]]]]]]]]]]]]]]]]]]]]]]]]]]]]]]]]]]]]]]]]]]]]]]]]]]]]]]]]]]]]]]]]]]]]]]]]]]]]]]]]]]]]]]]]]]]]]]]]]]]]]]]]]]]]]]]]]]]]]]]]]]]]]]]]]]]]]]]]]]]]]]]]]]]]]]]]]]]]]]]]]]]]]]]]]]]]]]]]]]]]]]]]]]]]]]]]]]]]]]]]]]]]]]]]]]]]] }\nfn after() { 1 }\n',
+    # escapes in string literals, valid and not, also directly in front of multi-byte characters
+    'fn esc() { "caf\\\u00e9 \\\u2192 b \\n \\x \\u{41} \\u{zz} \\\U0001f4a3" }\nconst c = "a\\\u00e9"\nfn g(s) { case s { "\\\u00e9" <> rest -> rest _ -> s } }\n',
     # a type whose rendering is large (it doubles with every binding: the last one has 2^11 components)
     'fn big() {\n  let a = #(1, "s")\n  let b = #(a, a)\n  let c = #(b, b)\n  let d = #(c, c)\n  let e = #(d, d)\n  let f = #(e, e)\n  let g = #(f, f)\n'
     '  let h = #(g, g)\n  let i = #(h, h)\n  let j = #(i, i)\n  j\n}\nfn use_big() { big() }\n',
@@ -140,7 +144,8 @@ def extra_truncations():
     res = []
     for t in EXTRA_SEEDS:
         ms = [lex(x) for x in t] if isinstance(t, tuple) else [lex(t), liblex]
-        for i in range(1, len(ms[0])):
+        # (a long seed - the nesting tower - is cut at a dozen places only)
+        for i in range(1, len(ms[0]), 1 if len(ms[0]) <= 200 else len(ms[0]) // 12):
             rest = [{"name": f"m{k + 2}", "lex": m} for k, m in enumerate(ms[1:])]
             res.append({"files": [{"name": "m1", "lex": ms[0][:i]}] + rest, "steps": 1})
             # the same truncation with the file ending in a multi-byte character (a comment without its line break)
